@@ -427,7 +427,27 @@ class Parser:
         if name == "in":
             self.next()
             self.expect_op("(")
-            if self.is_word("SELECT", "VALUES", "WITH"):
+            if self.is_word("VALUES") and self.is_op("(", k=1):
+                # row-value constructor list: IN (VALUES (a, b), (c, d))
+                self.next()
+                items = []
+                while True:
+                    self.expect_op("(")
+                    row = [self.expr(0)]
+                    while self.is_op(","):
+                        self.next()
+                        row.append(self.expr(0))
+                    self.expect_op(")")
+                    items.append(("row", row) if len(row) > 1 else row[0])
+                    if self.is_op(","):
+                        self.next()
+                        continue
+                    break
+                self.expect_op(")")
+                return ("in", left, items, neg)
+            if self.is_word("VALUES"):
+                raise ParseError("VALUES must be followed by a parenthesised row at %s" % (self.peek(1),))
+            if self.is_word("SELECT", "WITH"):
                 sub = self.raw_until_close()
                 return ("in", left, ("subq", sub), neg)
             items = []
